@@ -68,13 +68,17 @@ TEXT = {
         "technique": "Lean 4 proof (list algebra, bit-level refinement, exhaustive kernel decision over 256 extension sets) + differential correspondence",
     },
     "C13": {
-        "level_text": "Proved: get_kmer of the byte wrappers (DnaBytes/DnaSlice) spells bases pos..pos+K for every shipped k-mer type; the packed "
-                      "set_slice_mut used by the block walk is proved in C10. The block walk itself (DnaString, Lmer), the slice remap and the two "
-                      "iterator state machines are modelled with the code's control flow and compared, raw storage word by raw storage word, with "
-                      "the crate and with the window reference over all container x k-mer-type pairs on every run.",
+        "level_text": "Proved for every k-mer configuration: the block walk of get_kmer reads K consecutive lanes from any block storage "
+                      "(loop invariant over blocks, using C10's packed write), so DnaString (under C14's invariant), forward and "
+                      "reverse-complemented slices at every offset, and the byte wrappers are faithful containers; for every faithful container "
+                      "the rolling KmerIter yields exactly max(0, n-K+1) k-mers in order, the i-th spelling bases i..i+K and equal (as a storage "
+                      "word) to get_kmer(i); KmerExtsIter pairs each k-mer with the bits of its true flanking bases and uses the caller's "
+                      "extensions only at the two ends; first/last/term accessors; kmers_from_bytes/ascii (C10). Lmer's get_kmer uses the "
+                      "same proved block walk; its length-byte bookkeeping is listed as partial. All container x k-mer-type pairs are "
+                      "compared with the crate, raw storage word by raw storage word, on every run.",
         "design_ref": "DESIGN.md section 6, C13",
-        "level_note": COMMON_NOTE + "Partial: see evidence.partial_theorems; most of this property currently rests on the correspondence check and the executable predicate.",
-        "technique": "Lean 4 proof (byte wrappers) + differential correspondence with executable predicate over all containers",
+        "level_note": COMMON_NOTE + "Partial: Lmer as a faithful container (C17 multi-word refinement).",
+        "technique": "Lean 4 proof (block-walk loop invariant, iterator state machines by induction over positions, for any faithful container) + differential correspondence over all containers",
     },
     "C14": {
         "level_text": "Proved for every finite history (C14_history): push, extend (both phases: base-by-base up to the block boundary, then "
@@ -90,15 +94,16 @@ TEXT = {
         "technique": "Lean 4 proof (refinement of DnaString to a plain base vector, invariant by induction over histories) + differential correspondence over operation histories",
     },
     "C15": {
-        "level_text": "Proved (view algebra, for any backing string): slice-of-a-view reads the view at the shifted position in both orientations "
-                      "(get_slice), lengths/orientation of sub-views, exactly which intervals are accepted, rc of a view complements and mirrors, "
-                      "rc∘rc = id, prefix/suffix/interval views of the string, and the repaired Debug equals Display below 256 bases. "
-                      "hammingDist = number of differing positions and the renderers are executed (lengths up to 5000, differences planted "
-                      "at 0/31/32/1023/1024). Two genuine defects (D1 hamming_dist for len>=1024, D2 Debug of rc views) were found by this "
-                      "check and repaired in /repo.",
+        "level_text": "Proved for every well-formed backing string and every view inside it: reads, bytes, ASCII, text and Debug renderings, "
+                      "to_owned, == and get_kmer (either orientation, every k-mer configuration) are those of the corresponding substring of "
+                      "the plain base vector, reverse-complemented when flagged; slice / rc / prefix / suffix / interval act as drop/take and "
+                      "reverse complement, hence any interleaving to any depth does (C15_history); the interval assertions are exactly "
+                      "a <= b <= length; hamming_dist (as repaired) equals the number of differing positions for every length, offset and "
+                      "orientation (block path and tail, C15_hamming). Two genuine defects (D1 hamming_dist for len >= 1024, D2 Debug of rc "
+                      "views) were found by this check and repaired in /repo.",
         "design_ref": "DESIGN.md section 6, C15",
-        "level_note": COMMON_NOTE + "Partial: list-level statements rest on the C14 refinement.",
-        "technique": "Lean 4 proof (view re-indexing algebra) + differential correspondence with executable predicate",
+        "level_note": COMMON_NOTE,
+        "technique": "Lean 4 proof (refinement of views to substrings of the base vector, induction over view histories) + differential correspondence with executable predicate",
     },
     "C17": {
         "level_text": "Proved (word level): block_get/block_set are the Kmer32 accessors (single-base writes change exactly the addressed base of "
